@@ -90,6 +90,9 @@ def judge(case):
         nt = True
     if max([M.pred_depth(p) for p in M.preds(prog["body"])] or [0]) >= 4:
         tags.append("predicate-depth>=4")
+    if max([len(M.cmps(p)) for p in M.preds(prog["body"])] or [0]) >= 13:
+        tags.append("predicate-atoms>=13")
+        nt = True
     res = sut.compile_text(text)
     if res[0] != "ok":
         return {"viol": ["grammatical experiment does not compile: %s: %s | %s" % (res[1], res[2], text)], "nontrivial": nt,
